@@ -236,6 +236,11 @@ func decodeSweep(g *rig, idx, n int) {
 				continue
 			}
 			g.expect("csi-letter", "CSI 1;mods final", fmt.Sprintf("\x1b[1;%d%c", m+1, f), want{code: code, mods: vaxis.ModifierMask(m)}, m*256+int(f))
+			// with the kitty "report event types" flag these keys keep their legacy final and carry the
+			// event type as a sub-parameter of the modifiers
+			if evN := 1 + (m+int(f))%3; f != 'R' || m != 0 {
+				g.expect("csi-letter", "CSI 1;mods:event final", fmt.Sprintf("\x1b[1;%d:%d%c", m+1, evN, f), want{code: code, mods: vaxis.ModifierMask(m), ev: vaxis.EventType(evN - 1)}, m*256+int(f))
+			}
 		}
 	}
 	if mine() {
@@ -251,6 +256,8 @@ func decodeSweep(g *rig, idx, n int) {
 				continue
 			}
 			g.expect("csi-tilde", "CSI n;mods ~", fmt.Sprintf("\x1b[%d;%d~", num, m+1), want{code: code, mods: vaxis.ModifierMask(m)}, m*256+num)
+			evN := 1 + (m+num)%3
+			g.expect("csi-tilde", "CSI n;mods:event ~", fmt.Sprintf("\x1b[%d;%d:%d~", num, m+1, evN), want{code: code, mods: vaxis.ModifierMask(m), ev: vaxis.EventType(evN - 1)}, m*256+num)
 		}
 	}
 	// CSI 27;m;k ~ (modifyOtherKeys)
@@ -604,7 +611,7 @@ func main() {
 	n := r.Get("decodes") + r.Get("match_pairs") + r.Get("cross_chords")
 	r.Finish(explore.Coverage{
 		States: -1, Transitions: n, Traces: n, Evaluations: n,
-		Rule: "decoding, through bytes -> ansi.Parser -> input loop of a real Vaxis on a fake console: every ASCII byte and 24 non-ASCII scalars raw; ESC + every byte 0x30-0x7F that stays in the escape state; SS3 keys; CSI 1;m X for 11 finals x all 256 modifier masks; CSI n;m ~ for 30 numbers x 256 masks; CSI 27;m;k ~; CSI u for 128 ASCII codes + 24 non-ASCII + every functional key of the kitty specification x 256 masks with the optional fields (shifted, base, event type, text) rotating so that every combination meets every mask; compared with an independent decoder. Matching: ~5000 decoded events x 138 binding keys x 256 masks: agreement with a transcription of the six documented matching rules for every (event, binding, mask), own-binding completeness, soundness on Ctrl/Alt/Super/Hyper/Meta, lock insensitivity, MatchString parsing. Cross-protocol: 95 chords under both encodings: String() and match sets. distinct = inputs/events/chords that passed",
+		Rule: "decoding, through bytes -> ansi.Parser -> input loop of a real Vaxis on a fake console: every ASCII byte and 24 non-ASCII scalars raw; ESC + every byte 0x30-0x7F that stays in the escape state; SS3 keys; CSI 1;m X for 11 finals x all 256 modifier masks, CSI n;m ~ for 30 numbers x 256 masks, each also with an event-type sub-parameter (press/repeat/release rotating); CSI 27;m;k ~; CSI u for 128 ASCII codes + 24 non-ASCII + every functional key of the kitty specification x 256 masks with the optional fields (shifted, base, event type, text) rotating so that every combination meets every mask; compared with an independent decoder. Matching: ~5000 decoded events x 138 binding keys x 256 masks: agreement with a transcription of the six documented matching rules for every (event, binding, mask), own-binding completeness, soundness on Ctrl/Alt/Super/Hyper/Meta, lock insensitivity, MatchString parsing. Cross-protocol: 95 chords under both encodings: String() and match sets. distinct = inputs/events/chords that passed",
 		Exhaustive: true,
 		Assumptions: []string{"0x08/0x09/0x0D/0x1B decode to Backspace/Tab/Enter/Escape (the usual reading of the ambiguous legacy bytes)",
 			"ESC + upper-case letter may be reported with either normalisation (Alt+Shift vs Alt+CapsLock cannot be told apart)",
